@@ -599,6 +599,18 @@ func genC20(o *Out, rng *rand.Rand, tier string) {
 			o.Emit(map[string]any{"proto": s.proto, "in": []int{}, "ev": ev}, cls, append(append([]byte(nil), key...), name...), true)
 		}
 	}
+	// one life in which every read-only helper is applied once, in a random order, with an observation after each
+	allUses := func(mk func(r *rand.Rand) subject, cls string) {
+		s := mk(rand.New(rand.NewSource(rng.Int63())))
+		key := s.enc()
+		ev := append(printFirst(s), safe(s.obs))
+		for _, i := range rng.Perm(len(s.uses)) {
+			u := s.uses[i]
+			ev = append(ev, map[string]any{"a": "Call", "m": "use " + u.name, "r": useResult(u)}, safe(s.obs))
+		}
+		ev = append(ev, printCall(s)...)
+		o.Emit(map[string]any{"proto": s.proto, "in": []int{}, "ev": ev}, cls, key, true)
+	}
 	for _, c := range v6Known {
 		for k := 0; k < 2; k++ {
 			cc := c
@@ -713,6 +725,54 @@ func genC20(o *Out, rng *rand.Rand, tier string) {
 			}
 			return subj6(d)
 		}, "relay6-eui64-peers-every-method")
+	}
+	// link-layer addresses of every hardware type and shape, wherever a message carries one (client link-layer option of the
+	// innermost relay, DUID-LL / DUID-LLT client identifiers, alone or behind relays without the option): the helpers that
+	// derive a MAC from them look at type, length and contents
+	{
+		hws := []iana.HWType{iana.HWTypeEthernet, iana.HWTypeIEEE802, iana.HWTypeEUI64, iana.HWTypeInfiniband, iana.HWTypeFibreChannel, 0, 65535}
+		shapes := func(r *rand.Rand) [][]byte {
+			a, b := randBytes(r, 3), randBytes(r, 3)
+			return [][]byte{append(append([]byte(nil), a...), b...), // 48-bit
+				append(append(append([]byte(nil), a...), 0xff, 0xfe), b...),       // 64-bit made from a 48-bit address
+				append(append(append([]byte(nil), a...), 0xff, 0xff), b...),       // 64-bit made from an EUI-48
+				randBytes(r, 8), randBytes(r, 20), randBytes(r, 16), {0xff, 0xff, 0xff, 0xff, 0xff, 0xff}, make([]byte, 6), randBytes(r, 1), {}}
+		}
+		nsh := len(shapes(rand.New(rand.NewSource(1))))
+		for hi := range hws {
+			for si := 0; si < nsh; si++ {
+				for place := 0; place < 4; place++ {
+					hw, sidx, pl := hws[hi], si, place
+					allUses(func(r *rand.Rand) subject {
+						addr := net.HardwareAddr(shapes(r)[sidx])
+						inner := &dhcpv6.Message{MessageType: dhcpv6.MessageTypeSolicit}
+						copy(inner.TransactionID[:], randBytes(r, 3))
+						switch pl {
+						case 0, 2:
+							inner.AddOption(dhcpv6.OptClientID(&dhcpv6.DUIDLL{HWType: hw, LinkLayerAddr: append(net.HardwareAddr(nil), addr...)}))
+						case 1:
+							inner.AddOption(dhcpv6.OptClientID(&dhcpv6.DUIDLLT{HWType: hw, Time: 0x2a2a2a2a, LinkLayerAddr: append(net.HardwareAddr(nil), addr...)}))
+						default:
+							inner.AddOption(dhcpv6.OptClientID(&dhcpv6.DUIDEN{EnterpriseNumber: 9, EnterpriseIdentifier: []byte("x")}))
+						}
+						var d dhcpv6.DHCPv6 = inner
+						if pl >= 2 {
+							rm, _ := dhcpv6.EncapsulateRelay(d, dhcpv6.MessageTypeRelayForward, net.ParseIP("2001:db8::1"), net.ParseIP("fe80::1"))
+							if pl == 3 {
+								rm.AddOption(dhcpv6.OptClientLinkLayerAddress(hw, append(net.HardwareAddr(nil), addr...)))
+							}
+							d = rm
+						}
+						if r.Intn(2) == 0 { // as received
+							if q, err := dhcpv6.FromBytes(d.ToBytes()); err == nil {
+								return subj6(q)
+							}
+						}
+						return subj6(d)
+					}, "link-layer-address-shapes")
+				}
+			}
+		}
 	}
 	// values as they come off the wire from other implementations: acceptable but not what this library would have
 	// written (repeated request codes, compressed names, reserved bits, unsorted DHCPv4 areas), alone and behind relays -
